@@ -25,7 +25,7 @@ CLAIMED = {
   text="Proof that every arithmetic / comparison / bitwise / shift / conversion member of ikos::z_number and q_number (lib/bignums.cpp) is the mathematical operation GIVEN GMP's documented behaviour of each __gmpz_*/__gmpq_* entry point it calls (truncating / and %, floor >>, two's-complement bitwise operations on either sign, int64/uint64 conversions in all branches, floor/ceil rounding of rationals, fill_ones with an inductive loop contract), and that crab::safe_i64 (lib/safeint.cpp) returns the exact result whenever it returns and reports overflow exactly when the 128-bit result does not fit; plus (unit lincst) constraint negation / tautology / contradiction tests over an abstract valuation, and (bounded, <= 2 terms, real boost flat_map) the evaluation homomorphism of linear_expression sum / difference / scaling / renaming; linear_constraint_system operator+= / is_false / is_true (bounded, <= 2 constraints of <= 1 term).",
   note=TRUST + "models/gmpmodel.c: GMP entry points modelled with their documented meaning on 2-limb values (|v| < 2^126; products, quotients and rational canonicalisation partly uninterpreted with axioms); magnitudes beyond are assumed to behave alike. Not decided: exact STRING round trips (get_str / string constructors are GMP externals), hash, get_double; linear_constraint_system::normalize() is NOT decided (contract written, no back end decides it even for 2 constraints). safe_i64 division requires a non-zero divisor."),
  'C19': dict(
-  text="Proof for all 64-bit inputs of the patricia bit kernels (highest_bit with an inductive loop contract, mask, zero_bit, match_prefix, compute_branching_bit) and of the routing lemmas that make insert/lookup/merge route consistently and keep joined nodes well formed (incl. the 2^63 corner), and proof of the separate_domain / discrete_domain / patricia_tree_set glue (set, at, forget, <=, ==, join/meet/widening/narrowing bookkeeping, operation objects, membership, subset) over ASSUMED finite-map contracts of the tree algorithms; plus (unit pttree, BOUNDED) the real tree algorithms insert / lookup / remove / merge_with / leq / transform / iteration run on small trees (<= 2 symbolic-key bindings per tree, keys < 8) against a model map.",
+  text="Proof for all 64-bit inputs of the patricia bit kernels (highest_bit with an inductive loop contract, mask, zero_bit, match_prefix, compute_branching_bit) and of the routing lemmas that make insert/lookup/merge route consistently and keep joined nodes well formed (incl. the 2^63 corner), and proof of the separate_domain / discrete_domain / patricia_tree_set glue (set, at, forget, <=, ==, join/meet/widening/narrowing bookkeeping, operation objects; set union / intersection / insertion / removal / membership / subset with their operation objects, iteration begin/end, rename of one pair) over ASSUMED finite-map contracts of the tree algorithms; plus (unit pttree, BOUNDED) the real tree algorithms insert / lookup / remove / merge_with / leq / transform / iteration run on small trees (<= 2 symbolic-key bindings per tree, keys < 8) against a model map.",
   note=TRUST + "The tree algorithms (insert, remove, merge, compare, transform, iteration over shared_ptr nodes with virtual dispatch) are assumed in unit sepdom and checked only on small instances in unit pttree (bounded, reference counting not modelled): a change inside merge/compare that needs more than 2 bindings per tree or keys >= 8 to manifest is not detected in the quick tier."),
 }
 # properties whose checks currently pass on the unchanged tree and are therefore claimed
